@@ -48,7 +48,7 @@ class Ctx:
                           # the replay counters (C05), the MAC keys recorded / awaiting disclosure (C09), the resend queue (C18)
                           "C05": {"ctrs", "rsq"}, "C10": {"sess", "ms"},
                           # a MAC key queued for disclosure is a key anybody will be able to forge with
-                          "C02": {"pend"}, "C09": {"macs", "pend"}, "C18": {"ms", "rsq", "rsf"}}.get(pid, set())
+                          "C02": {"pend", "rsq"}, "C09": {"macs", "pend"}, "C18": {"ms", "rsq", "rsf"}}.get(pid, set())
 
     def quick(self):
         return self.tier != "thorough"
@@ -443,7 +443,10 @@ def c09(ctx):
         ctx.random_validate("oneway", 16, 80)
         ctx.random_validate("rekey", 48, 4)
         ctx.random_validate("life", 48, 60)
+        # a failed rotation (randomness source) must not put live keys on the disclosure list
+        ctx.random_validate("randfail", 64, 90)
     else:
+        ctx.random_validate("randfail", 640, 90)
         ctx.model("c09-5x4", dict(DATA33, MaxSend=5, MaxFlight=4), inv)
         ctx.model("c09-tick", dict(DATA33, MaxSend=3, MaxFlight=3, MaxTick=2, MaxExtra=2), inv)
         ctx.model("c09-bag", dict(DATA33, NetMode="bag", MaxSend=2, MaxFlight=2, MaxDup=2, MaxDrop=1), inv)
@@ -578,6 +581,8 @@ def c02(ctx):
     ctx.export_tamper_validate("c02-ws", dict(PolA=3 | 8, PolB=3 | 16, Prelude=[dict(a="Send", p="A")], PreludeDrain=True, MaxSend=1, MaxFlight=2),
                                "none", per_msg=6 if q else 20, maxsched=30 if q else 200)
     ctx.export_tamper_validate("c02-rep", dict(DATA33, MaxSend=2, MaxFlight=2), "none", per_msg=4 if q else 16, maxsched=20 if q else 150, replace=True)
+    # what is re-sent after an error report is the text the user gave, byte for byte
+    ctx.random_validate("errlife", 32 if q else 320, 60 if q else 150)
     ctx.attack_catalogue("data")
 
 
@@ -1009,7 +1014,7 @@ def c20(ctx):
         raise Broken("race build failed: " + p.stderr[-1500:])
     sched = os.path.join(ctx.work, "conc.sched")
     with open(sched, "w") as fo:
-        for fam, n, depth in (("life", 5, 40), ("errlife", 3, 40), ("smp", 3, 2), ("data", 3, 40), ("fragsweep", 2, 6)):
+        for fam, n, depth in (("life", 4, 40), ("errlife", 3, 40), ("smp", 6, 3), ("data", 3, 40), ("fragsweep", 2, 6)):
             n2 = n if q else n * 2
             tmp = os.path.join(ctx.work, "c-%s.sched" % fam)
             subprocess.run([vlib.BIN, "gen", "-family", fam, "-n", str(n2), "-depth", str(depth), "-seed", str(ctx.seed * 31 + len(fam)), "-out", tmp], check=True)
